@@ -172,6 +172,19 @@ def concatenate_clauses(ctx):
         inner = loops[1]
         rowv = inner.target.id
         facts = Facts(cat, include_nested=True)
+        # every chained resource goes through the row loop: no path of the loop over the resources hands a resource's rows on as
+        # they are (they carry the source's field names and the columns the target does not declare) or skips the resource
+        okr = True
+        for p in Enumerator(where=cat.qualname).body_paths(loops[0]):
+            if p.term == RAISE:
+                continue
+            through = [it_ for it_ in p.items if it_.kind == 'loop' and it_.node is inner]
+            other_y = [y for it_ in p.items if it_.kind not in ('loop', 'guard') and isinstance(it_.node, ast.AST) for y in ast.walk(it_.node)
+                       if isinstance(y, (ast.Yield, ast.YieldFrom))]
+            okr = okr and len(through) == 1 and not other_y and not any(it_.kind == 'loop_exit' for it_ in p.items)
+        run.check(okr, 'CAT', where(repo, loops[0]), cat.qualname, 'every resource of the run is rebuilt row by row',
+                  'a resource of the concatenated run is passed through as it is (or skipped): its rows keep the source field names and '
+                  'the columns the target schema does not declare')
         for p in Enumerator(where=cat.qualname).body_paths(inner):
             if p.term == RAISE:
                 continue
